@@ -1279,6 +1279,7 @@ static AttemptResult runAttempt(Session &s, const Policy &p, int cut, bool sendI
     AttemptResult res;
     Conforming srv; srv.p = p;
     int connectedBefore = w.connectedSignals;
+    const QStringList outstandingAtStart = w.outstandingIds;   // requests of earlier sessions
     size_t sentFrom = w.sent.size();
     if (!alreadyOpen) {   // alreadyOpen: the client has opened the connection by itself (see-other-host)
         bool wasDisconnected = w.client->state() == QXmppClient::DisconnectedState;
@@ -1355,7 +1356,10 @@ static AttemptResult runAttempt(Session &s, const Policy &p, int cut, bool sendI
         else oraclePass()++;
         // a session that was not resumed cannot answer the requests of the old one: they must be finished by now
         if (res.connectedSeen && !srv.resumedNow) {
-            if (w.iqStarted - w.iqFinished != 0) fail("C10:request-outlives-new-session", s.replay());
+            // (requests that failure continuations sent while the old ones were cancelled belong to the NEW session)
+            bool old = false;
+            for (const QString &id : outstandingAtStart) old = old || w.outstandingIds.contains(id);
+            if (old) fail("C10:request-outlives-new-session", s.replay());
             else oraclePass()++;
         }
         if (sendIqWhenUp && w.client->isConnected()) s.op("sendiq");
@@ -1501,6 +1505,47 @@ static void exploreC10(Runner &r, Rng &rng, bool thorough)
             runAttempt(s, byName("sasl-bind-smr"), -1, false, resumable);
             stat("c10:runs");
         });
+    // (0a'') a re-entrant application: requests whose FAILURE continuation sends one more request ("retry once"), outstanding at every
+    // way a session can end, with and without stream management. Script-side oracle: after an end that leaves nothing to resume NO
+    // request is pending - including the ones the continuations created while the session was torn down.
+    {
+        const char *bases[] = { "sasl-bind", "scram-bind-sm", "sasl-bind-smr", "sasl2-bind2-smr", "tls-sasl-bind" };
+        const char *ends[] = { "drop", "rst", "errclose", "close", "proceed 1", "streamerror+drop", "connect" };
+        for (auto bn : bases)
+            for (auto en : ends)
+                for (int nreq = 1; nreq <= 2; nreq++)
+                    experiment(r.w.settleTimeouts, nullptr, [&]() {
+                        const Policy &bp = byName(bn);
+                        Session s(r, cfgs[bp.tls ? 3 : 0]);
+                        World &w = r.w;
+                        bool resumable = false;
+                        runAttempt(s, bp, -1, false, resumable);
+                        for (int i = 0; i < nreq; i++) s.op("sendiq-retry");
+                        std::string e = en;
+                        bool orderly = !(e == "drop" || e == "rst" || e == "streamerror+drop" || e == "connect");
+                        if (e == "streamerror+drop") { s.op("streamerror"); s.op("drop"); }
+                        else s.op(e);
+                        // an orderly end (the client closes the stream itself) is never resumable; a loss is, if the script made the stream resumable
+                        bool nothingToResume = orderly || !resumable;
+                        if (nothingToResume && w.iqStarted - w.iqFinished != 0) fail("C10:request-pending-after-non-resumable-end", s.replay());
+                        else oraclePass()++;
+                        if (orderly) resumable = false;
+                        if (e == "connect") {
+                            // the application reconnects on a live session: the old connection is aborted (like a loss), then the flow runs again
+                            runAttempt(s, byName(resumable ? "sasl-bind-smr-noresume" : bp.name.c_str()), -1, false, resumable, true);
+                        } else {
+                            // next attempt: resumption refused (or a plain new session) - the old requests are cancelled, the retries go to the new
+                            // session; an answer completes one of them; an orderly end then leaves nothing pending
+                            runAttempt(s, byName(resumable ? "sasl-bind-smr-noresume" : bp.name.c_str()), -1, false, resumable);
+                        }
+                        if (w.client->isConnected() && w.iqStarted - w.iqFinished > 0) s.op("iqresult pending");
+                        s.op("errclose");
+                        if (w.iqStarted - w.iqFinished != 0) fail("C10:request-pending-after-non-resumable-end", s.replay());
+                        else oraclePass()++;
+                        stat("c10:runs");
+                        stat("c10:retry-scenarios");
+                    });
+    }
     // (0b) three consecutive connections with stream management: new resumable session + outstanding request, cut; <resume/> accepted,
     // cut again; <resume/> refused (the server must bind again) - for classic and inline (SASL2) resumption, all combinations
     auto triple = [&](const Policy &pa1, const Policy &pa2, const Policy &pb, int cfgIdx, int cut3, bool iq2) {
